@@ -160,6 +160,61 @@ def run(ck, fx, cg, tier):
             ck.ob("R11.env", "%s|%s|clap env" % (h["item"], h["on"]), False, "src/main.rs",
                   "the option falls back to an environment variable (%s): the same command line gives different results in different environments" % " ".join(h["text"].split())[:160])
     ck.ob("R11.env", "command-line options do not read the environment", True, "", "%d clap attribute(s) examined" % n_clap, nontrivial=False)
+    # The command-line definition is validated by clap only in builds with debug assertions (`#[cfg(debug_assertions)]`
+    # around App::_debug_asserts in the vendored clap 3.0.0-beta.2, run when a (sub)command is selected): an inconsistent
+    # definition makes every `cargo build` binary panic on that sub-command while the release binary of the same source
+    # runs. Decided per derive struct: argument ids (`name = ".."`, else the field name), long and short option names
+    # are unique, and every id named by a relation attribute exists in the same struct.
+    REL = ("conflicts_with", "conflicts_with_all", "requires", "requires_all", "requires_if", "requires_ifs", "required_unless",
+           "required_unless_present", "required_unless_present_all", "required_unless_present_any", "required_unless_eq_all",
+           "required_if_eq", "required_if_eq_any", "overrides_with", "overrides_with_all", "default_value_if", "default_value_ifs",
+           "required_unless_one", "required_unless_all", "required_if", "required_ifs")
+    by_item = {}
+    for h in fx.helper_attrs:
+        if "clap" in h["text"] and h["on"].startswith("field "):
+            by_item.setdefault(h["item"], {}).setdefault(h["on"][6:], []).append(" ".join(h["text"].split()))
+    n_args = 0
+    for item, fields in sorted(by_item.items()):
+        ids, longs, shorts, groups = {}, {}, {}, set()
+        rels = []
+        sub = False
+        for fld, texts in fields.items():
+            t = " ".join(texts)
+            if re.search(r"\b(subcommand|flatten|skip)\b", t):
+                sub = sub or "flatten" in t
+                continue
+            n_args += 1
+            m = re.search(r"\bname\s*=\s*\"([^\"]*)\"", t)
+            ids.setdefault(m.group(1) if m else fld, []).append(fld)
+            m = re.search(r"\blong\s*=\s*\"([^\"]*)\"", t)
+            if m or re.search(r"\blong\b\s*[,)]", t):
+                longs.setdefault(m.group(1) if m else fld.replace("_", "-"), []).append(fld)
+            m = re.search(r"\bshort\s*=\s*['\"](.)['\"]", t)
+            if m or re.search(r"\bshort\b\s*[,)]", t):
+                shorts.setdefault(m.group(1) if m else fld[0], []).append(fld)
+            for g in re.findall(r"\bgroups?\s*=\s*\"([^\"]*)\"", t):
+                groups.add(g)
+            for key, val in re.findall(r"\b(%s)\s*(?:=\s*|\()\s*(&?\[[^\]]*\]|\"[^\"]*\"(?:\s*,\s*\"[^\"]*\")?)" % "|".join(REL), t):
+                names = re.findall(r"\"([^\"]*)\"", val)
+                if key in ("requires_if", "required_if_eq", "default_value_if", "required_if") and len(names) >= 2:
+                    # (value, id) / (id, value): requires_if(val, id); required_if_eq(id, val); default_value_if(id, val, default)
+                    names = [names[1]] if key == "requires_if" else [names[0]]
+                for nm in names:
+                    rels.append((fld, key, nm))
+        if sub:
+            continue        # flattened structs share one namespace: not decided here (none in the pinned tree)
+        for what, table in (("argument id", ids), ("long option", longs), ("short option", shorts)):
+            for nm, fl in sorted(table.items()):
+                if len(fl) > 1:
+                    ck.ob("R11.cli", "%s|%s `%s` is unique" % (item, what, nm), False, "src/main.rs",
+                          "%s `%s` is used by the fields %s of %s: clap rejects this only when built with debug assertions — the dev-profile binary panics where the release binary runs" % (what, nm, fl, item))
+        for fld, key, nm in rels:
+            ok = nm in ids or nm in groups
+            ck.ob("R11.cli", "%s|%s|%s = \"%s\"" % (item, fld, key, nm), ok, "src/main.rs",
+                  "names an argument of %s" % item if ok else
+                  "`%s = \"%s\"` on field `%s` names no argument or group of %s (ids: %s) — clap checks this only when built with debug assertions: the dev-profile binary panics on this sub-command, the release binary ignores the relation and runs" % (key, nm, fld, item, sorted(ids)))
+        ck.ob("R11.cli", "%s|definition is self-consistent" % item, True, "src/main.rs", "%d argument(s): ids %s" % (len(ids), sorted(ids)), nontrivial=False)
+    ck.floor("R11.cli", "command-line arguments examined", n_args, 14)
     okp, whyp = shared.cargo_profiles_agree()
     ck.ob("R11.profile", "Cargo.toml|profiles agree on the panic strategy", okp, "Cargo.toml",
           whyp + ("" if okp else " — a failing program loses its unflushed output and exits with SIGABRT in one build but not in the other"))
